@@ -123,3 +123,34 @@ void h_realloc(void) {
     VACUITY_END();
 }
 #endif
+
+#ifdef REMAP
+/* Backend::remap (in-place growth of a huge object by mremap): the new region size is computed from newSize + the object's offset in its region.  The statements between
+   `const size_t userOffset` and `regionList.remove(oldRegion)` are sliced verbatim into the body below; everything after them resizes the mapping to requestSize and records
+   objectSize = newSize, so falling through ("PROCEED") is only sound if the block really holds newSize bytes behind the offset. */
+static size_t SIZEOF_MemRegion, SIZEOF_LastFreeBlock;
+#include "remap.inc"
+size_t g_aligned, g_request; bool g_proceed;
+static void *remap_fragment(void *ptr, void *oldRegion, size_t newSize, size_t granularity) {
+    g_proceed = false;
+#include "remap_frag.inc"
+    g_aligned = alignedSize; g_request = requestSize; g_proceed = true;
+    return ptr;
+}
+size_t IN_newSize, IN_offset, IN_gran;
+void h_remap(void) {
+    size_t newSize = IN_newSize = nondet_size_t(), off = IN_offset = nondet_size_t(), gran = IN_gran = nondet_size_t();
+    SIZEOF_MemRegion = nondet_size_t(); SIZEOF_LastFreeBlock = nondet_size_t();
+    __CPROVER_assume(SIZEOF_MemRegion >= 8 && SIZEOF_MemRegion <= 4096 && SIZEOF_LastFreeBlock >= 8 && SIZEOF_LastFreeBlock <= 4096);
+    __CPROVER_assume(gran >= 4096 && gran <= ((size_t)1 << 30) && (gran & (gran - 1)) == 0);              /* page or huge-page size */
+    __CPROVER_assume(off >= SIZEOF_MemRegion && off <= ((size_t)1 << 32));                                    /* the object lies behind the region header, alignment slack at most 4 GB */
+    __CPROVER_assume(newSize >= 8 * 1024);                                                                    /* remap is only tried for min(oldSize,newSize) >= maxBinned_SmallPage */
+    char *region = (char *)(uintptr_t)((size_t)1 << 40);
+    remap_fragment(region + off, region, newSize, gran);
+    if (g_proceed) {
+        OBLIGATION(g_aligned >= newSize && g_aligned - newSize >= off, "C18.overflow: Backend::remap goes on to resize the mapping only if the new block really holds offset + newSize bytes - a request whose size cannot be represented (newSize + offset, or its rounding to a bin, wraps) must be refused");
+        OBLIGATION(g_request >= g_aligned && g_request - g_aligned >= SIZEOF_MemRegion + SIZEOF_LastFreeBlock, "C18.overflow: the mapping requested covers the region header, the block and the trailing marker (no wrap in the page rounding)");
+    }
+    VACUITY_END();
+}
+#endif
